@@ -43,4 +43,4 @@ inline void xc_case(const Case &cs, RunCase &&rc) {
     std::fflush(stdout);
 }
 }  // namespace vh
-#define run(F, S) run(vh::xc_wrap(F), S)
+#define run(F, ...) run(vh::xc_wrap(F), __VA_ARGS__)
